@@ -68,6 +68,14 @@ impl GenCfg {
       max_tokens: 10,
     }
   }
+  /// larger ASCII trees: deeper, more children, longer (multi-line) leaf texts
+  pub const fn positional_large() -> Self {
+    GenCfg { depth: 4, max_children: 6, max_tokens: 30, ..GenCfg::positional() }
+  }
+  /// larger wild trees
+  pub const fn wild_large() -> Self {
+    GenCfg { depth: 4, max_children: 6, max_tokens: 30, ..GenCfg::wild() }
+  }
   /// Raw*/Original/Concat/Replace/Cached only (C04)
   pub const fn provenance() -> Self {
     GenCfg {
@@ -213,8 +221,12 @@ pub fn concretize_repls(t: &str, pool_sel: &[u16], abs: &[AbsRepl], huge: bool) 
         } else {
           let j = i + idx(r.b, pool.len() - i);
           if j == pool.len() - 1 && r.b > 60000 {
-            // reaches past the end of the text
-            t.len() as u32 + 3
+            // reaches past the end of the text ("to the end" is often spelled with a huge number)
+            if huge {
+              [t.len() as u32 + 3, 1 << 30, 1 << 31, u32::MAX][r.b as usize % 4]
+            } else {
+              t.len() as u32 + 3
+            }
           } else {
             pool[j]
           }
@@ -260,7 +272,7 @@ impl AbsSeg {
 impl AbsMap {
   #[allow(clippy::too_many_arguments)]
   pub fn new(segs: Vec<AbsSeg>, nsrc: u8, nnames: u8, dup_names: bool, content_mode: u8, root: u8, src_base: u8, wild: bool) -> Self {
-    AbsMap { segs, nsrc: nsrc.clamp(1, 3), nnames: nnames.min(3), dup_names, content_mode: content_mode.min(2), root, src_base, wild, allow_dups: false }
+    AbsMap { segs, nsrc: nsrc.clamp(1, 3), nnames: nnames.min(3), dup_names, content_mode: content_mode.min(3), root, src_base, wild, allow_dups: false }
   }
   pub fn with_dups(mut self) -> Self {
     self.allow_dups = true;
@@ -302,7 +314,7 @@ pub fn abs_map(cfg: GenCfg) -> impl Strategy<Value = AbsMap> {
     1u8..=3u8,
     0u8..=3u8,
     prop::bool::weighted(0.25),
-    0u8..4u8,
+    0u8..5u8,
     0u8..8u8,
     0u8..4u8,
     if cfg.wild {
@@ -317,7 +329,7 @@ pub fn abs_map(cfg: GenCfg) -> impl Strategy<Value = AbsMap> {
         nsrc,
         nnames,
         dup_names,
-        content_mode: content_mode.min(2),
+        content_mode: content_mode.min(3),
         root,
         src_base,
         wild,
@@ -344,16 +356,42 @@ pub fn concretize_map(t: &str, am: &AbsMap, ascii: bool) -> MapSpec {
   let contents: Vec<String> = match am.content_mode {
     0 => vec![],
     1 => sources.iter().map(|s| format!("{GENERIC_CONTENT}// {s}\n")).collect(),
-    _ => sources
+    2 => sources
       .iter()
       .enumerate()
       .map(|(i, s)| if i == 0 { t.to_string() } else { format!("{GENERIC_CONTENT}// {s}\n") })
+      .collect(),
+    // "shifted identity": line k of the first source is two blanks + line k of the generated text
+    // cut short by 0 or 1 characters, and the content does not end in a line break; segments into it
+    // map (l, c) -> (l, c + 2), so chunk text equals the recorded original text up to the cut / the
+    // end of the content and then stops matching
+    _ => sources
+      .iter()
+      .enumerate()
+      .map(|(i, s)| {
+        if i == 0 {
+          let lines: Vec<String> = t
+            .split_inclusive('\n')
+            .enumerate()
+            .map(|(k, l)| {
+              let body = l.strip_suffix('\n').unwrap_or(l);
+              let keep = body.chars().count().saturating_sub((k + am.src_base as usize) % 2);
+              format!("  {}", body.chars().take(keep).collect::<String>())
+            })
+            .collect();
+          lines.join("\n")
+        } else {
+          format!("{GENERIC_CONTENT}// {s}\n")
+        }
+      })
       .collect(),
   };
   let root = match am.root {
     0 => Some(String::new()),
     1 => Some("rt".to_string()),
     2 => Some("rt/".to_string()),
+    3 => Some("w://".to_string()),
+    4 => Some("/".to_string()),
     _ => None,
   };
   let mut segs: Vec<Seg> = vec![];
@@ -426,6 +464,8 @@ pub fn concretize_map(t: &str, am: &AbsMap, ascii: bool) -> MapSpec {
           if (a.name as usize) < names.len() { Some(a.name as u32) } else { None };
         if identity {
           Some(Orig { src, line: l, col: c, name })
+        } else if am.content_mode == 3 && src == 0 && a.mapped >= 2 {
+          Some(Orig { src, line: l, col: c + 2, name })
         } else {
           Some(Orig {
             src,
